@@ -10,7 +10,7 @@
   beginning of a line" and every field the re-lexing cannot depend on (everything but kind and spelling) is unconstrained.
 """
 import os, pickle, signal, string
-from .interp import Obj, Arr, ElemPlace, _Ref, _ValPlace, wrap_int, Infeasible, _BUILTIN_MODELS
+from .interp import Obj, Arr, ElemPlace, _Ref, _ValPlace, wrap_int, Infeasible, NoReturn, NORETURN, _BUILTIN_MODELS
 from .build import AnalysisBroken
 from .lib_c09 import PInterp, chain
 
@@ -292,13 +292,36 @@ def _m_malloc(it, ctx, n, a):
     return Obj(None, lazy=False)
 
 
-# <stdio.h> calls that write no text: they report on the stream or release it.  The printer is analysed for a stream that
-# takes everything written to it (they answer 0); Printer.status_paths() decides that no other answer reaches the printer's end
+# <stdio.h> calls that write no text: they report on the stream or release it (close_file() of main.c: fflush, ferror, fclose).
+# The printer is analysed for a stream that takes everything written to it - they answer 0, the error path (error()) is not
+# the subject.  Printer.status_paths() decides, on abstract tokens, that once the first of them has been called the printer
+# writes nothing more and comes to its end; the table then follows a path only up to that call (_m_stream_end), which
+# keeps decisions about the stream (is it stdout? close it?) from multiplying the paths of every pair of the table.
 STATUS = ('fflush', 'ferror', 'fclose')
 
 
 def _m_stream_ok(it, ctx, n, a):
+    ctx.emit('call', n.callee(), a, n.line, 0)
     return 0
+
+
+def _m_stream_end(it, ctx, n, a):
+    raise NoReturn(n.callee(), a, n.line)
+
+
+def printer_helpers(u, fn, outs):
+    """the functions a token printer consults that an exploration over ABSTRACT tokens cannot follow: library functions and
+    helpers that look at spellings (`->loc`); a helper that only redistributes the flag logic is followed"""
+    reach, todo = set(), [fn]
+    while todo:
+        f = todo.pop()
+        for c in u.fn(f).walk():
+            g = c.callee() if c.kind == 'CallExpr' else None
+            if g and g not in outs and g not in reach:
+                reach.add(g)
+                if g in u.functions:
+                    todo.append(g)
+    return sorted(set(g for g in reach if g not in u.functions or any(m.kind == 'MemberExpr' and m.name == 'loc' for m in u.fn(g).walk())) | {'open_file'})
 
 
 MODELS = {'strlen': _m_strlen, 'strcmp': _m_strcmp, 'strncmp': _m_strncmp, 'strcasecmp': _m_strcasecmp, 'strncasecmp': _m_strncasecmp,
@@ -580,7 +603,33 @@ class Printer:
                 raise AnalysisBroken('enumerator %s vanished' % k)
         self.E = E
         opaque = [f for f in ('open_file',) if f in self.u.functions]
-        self.it = CMachine(P, self.u, {'opaque': opaque, 'cut': {k: None for k in OUTS}, 'loop_limit': 0})
+        # (where status_paths() cannot justify ending a path at the first stream-status call, the calls just answer 0 and
+        # every path is followed to its end: slower, same decisions)
+        self.full_paths = self.status_paths()
+        self.it = CMachine(P, self.u, {'opaque': opaque, 'cut': {k: None for k in OUTS}, 'models': {k: (_m_stream_ok if self.full_paths else _m_stream_end) for k in STATUS}, 'loop_limit': 0})
+
+    def status_paths(self):
+        """decides what lets decide() end a path at the first call of a stream-status function (STATUS): on every path of the
+        printer over abstract tokens (lists of 0..3 tokens, the helpers' answers free), with the stream reporting success,
+        no text is written after that call and the printer returns.  -> None when that holds, else the reason why not."""
+        u, fn = self.u, self.fn
+        helpers = [h for h in printer_helpers(u, fn, OUTS) if h not in STATUS and h not in NORETURN]
+        it = PInterp(self.P, u, {'opaque': helpers, 'cut': {k: None for k in OUTS}, 'models': {k: _m_stream_ok for k in STATUS}, 'loop_limit': 3})
+        try:
+            paths = it.explore(fn, lambda ctx: [Obj('Token', lazy=True, label='tok')], max_paths=4096)
+        except AnalysisBroken as e:
+            return '%s cannot be followed over abstract tokens: %s' % (fn, e)
+        for ctx, out in paths:
+            evs = [e for e in ctx.events if e[0] == 'call' and (e[1] in OUTS or e[1] in STATUS)]
+            first = next((i for i, e in enumerate(evs) if e[1] in STATUS), None)
+            if first is None:
+                continue
+            late = [e for e in evs[first + 1:] if e[1] in OUTS]
+            if late:
+                return '%s writes text (%s() at %s:%d) after it has called %s() at line %d' % (fn, late[0][1], u.name, late[0][3], evs[first][1], evs[first][3])
+            if out[0] != 'ret':
+                return '%s does not return on a path on which %s() at %s:%d reported success (it ends in %s() at line %d)' % (fn, evs[first][1], u.name, evs[first][3], out[1], out[3])
+        return None
 
     def decide(self, kind_a, a, b_kind, b, max_paths=256):
         """-> list of (separated?, trail, fields consulted) per returning path of print_tokens on `; A B`"""
@@ -601,8 +650,8 @@ class Printer:
             return [x]
         res = []
         for ctx, out in it.explore(self.fn, mk, max_paths=max_paths):
-            if out[0] != 'ret':
-                continue
+            if out[0] != 'ret' and not (out[0] == 'noreturn' and out[1] in STATUS):
+                continue        # (a path that ends at a stream-status call has written all its text: status_paths())
             box = ctx.c19
             A, B = box['A'], box['B']
             text = []       # ('sep', str) | ('tok', arr)
